@@ -355,7 +355,7 @@ add(
     H("s_float_fast_sampled", "smt", ["C07", "C08"], SMT_FUNCS,
       "every 16th decimal exponent in -344..=344 and all of -6..=24 x every significand 1 <= w < 10^19, sign flag false (the sign is decided by s_float_fast_bounds / _all); 60 s per query",
       stubs=SMT_CUTS, args=["float_check.py", "--exps=" + _s, _L, "--neg", "false", "--jobs", "8", "--timeout-ms", "60000"], cost=100, timeout=850),
-    H("s_float_fast_all", "smt", ["C02", "C07", "C08"], SMT_FUNCS,
+    H("s_float_fast_all", "smt", ["C02", "C07", "C08", "C01"], SMT_FUNCS,
       "every decimal exponent in -345..=345 x every significand 1 <= w < 10^19 x sign; 120 s per query",
       stubs=SMT_CUTS, args=["float_check.py", "--emin", "-345", "--emax", "345", _L, "--jobs", "14", "--timeout-ms", "120000"], tier=T, cost=1800, timeout=7200),
     H("s_simd_str2int", "smt", ["C07", "C17"], ["sonic_number::arch::x86_64::simd_str2int (the SSE digit reader selected with avx2+pclmulqdq, i.e. by /repo's target-cpu=native)",
@@ -374,7 +374,7 @@ add(
       stubs=["opaque: parse_float - its arguments are what is asserted", "models: x86 intrinsics lane-wise (smt/mir2smt.py SIMD table)",
              "what follows the literal is one fixed 25-byte tail (the scanner only looks at its length)"],
       args=["number_check.py", "--native", "--jobs", "8", "--timeout-ms", "60000", "--shapes", "quick"], cost=130, timeout=850),
-    H("s_parse_number_shapes_all", "smt", ["C07", "C02", "C08"], ["sonic_number::parse_number", "parse_number_fraction", "parse_exponent", "arch::fallback::simd_str2int (scalar 16-digit reader)", "POW10_UINT"],
+    H("s_parse_number_shapes_all", "smt", ["C07", "C02", "C08", "C01"], ["sonic_number::parse_number", "parse_number_fraction", "parse_exponent", "arch::fallback::simd_str2int (scalar 16-digit reader)", "POW10_UINT"],
       "every shape with sign x integer part (0, or 1..=22 digits) x 0..=22 fraction digits x {no exponent, e/E x sign/no sign x 1..=3 digits} x {end of input, more input}, plus the malformed ones (dot or exponent marker without a digit); every value of every digit",
       stubs=["opaque: parse_float - its arguments are what is asserted (what it returns for them is decided by the s_float_* runs)",
              "what follows the literal is one fixed 25-byte tail (the scanner only looks at its length)"],
